@@ -821,3 +821,53 @@ pub fn run_requests(exe: &std::path::Path, stack_bytes: usize, reqs: &[Req], tim
     }
     replies
 }
+
+/// see `cosetmon miniwork`
+pub fn miniwork(ops: u64, seed: u64) -> Vec<String> {
+    use crate::gen::{self, GenOpts};
+    use crate::rng::Rng;
+    crate::mon::install_panic_hook();
+    crate::capi::probe_orders();
+    let mut bad = Vec::new();
+    let mut r = Rng::new(seed);
+    let corpus: Vec<Vec<u8>> = include_str!("../../corpus/repo-test-vectors.txt").lines().filter_map(rcbor::unhex).collect();
+    for i in 0..ops {
+        let ty = STRUCT_TYPES[(i % 16) as usize];
+        let bytes = match i % 4 {
+            0 => {
+                let v = gen::gen_mval(&mut r, ty, &GenOpts::wire());
+                rcbor::encode(&crate::model::encode(&v), &mut rcbor::Style::wild(r.next()))
+            }
+            1 => {
+                // float-bearing claims / extras (the f16 paths of the `half` crate)
+                let mut c = gen::gen_claims(&mut r);
+                c.exp = Some(crate::model::MTime::Float(Item::Float(gen::pal_float(&mut r))));
+                c.rest.push((crate::model::MLabel::Int(-70000), Item::Float(gen::pal_float(&mut r))));
+                rcbor::encode(&crate::model::enc_claims(&c), &mut rcbor::Style::wild(r.next()))
+            }
+            2 => {
+                let base = corpus[r.below(corpus.len())].clone();
+                gen::mutate_bytes(&mut r, &base, &[0xa0])
+            }
+            _ => b1_header(1 + r.below(12), (i % 3) as u8),
+        };
+        for (t, tagged) in entry_points() {
+            let res = if tagged { capi::from_tagged_slice(t, &bytes) } else { capi::from_slice(t, &bytes) };
+            match res {
+                Ok(v) => {
+                    for (op, site) in follow_ups(&v, &[1], &[2], false) {
+                        bad.push(format!("panic in {} at {} on {}", op, site, rcbor::hex(&bytes)));
+                    }
+                    if let Err((class, detail)) = crate::checks::common::fixed_point(t, &bytes, tagged) {
+                        if crate::rcbor::neutralise_bignum_indefinite(&bytes).map(|x| x.1) != Some(true) {
+                            bad.push(format!("fixed point {}: {}", class, detail));
+                        }
+                    }
+                }
+                Err(EK::Panic(s)) => bad.push(format!("panic in decode at {} on {}", s, rcbor::hex(&bytes))),
+                Err(_) => {}
+            }
+        }
+    }
+    bad
+}
